@@ -2,7 +2,7 @@
    source (GenImp.builder_program, regenerated on every run). Statements only; see Props/C05T.v for the status of
    such theorems. *)
 From Coq Require Import String List Bool.
-Require Import SV.Model.Imp SV.Model.GenImp SV.Facts.ImpFacts SV.Facts.BuilderRefine.
+Require Import SV.Model.Imp SV.Model.GenImp SV.Facts.ImpFacts SV.Facts.BuilderRefine SV.Facts.TypesRefine.
 Import ListNotations.
 Open Scope string_scope.
 Open Scope list_scope.
@@ -31,6 +31,29 @@ Theorem c10_translated_builder_setters : forall d b s,
   calls builder_program (S d) (step_method s) [rep b; step_arg s] (CVal (rep (b_apply b s))).
 Proof. exact calls_step. Qed.
 
+(* the executor path, from the handle to the execute message (types.rs: Remote::new / borrowed, executor,
+   ExecutorBuilder::with_funds / contract / funds, the Ready state and build): addressed to the handle's address, with the
+   last funds set on the builder (none when unset) and the given body; owning or borrowing the address does not matter *)
+Theorem c10_translated_executor_path : forall d (owned : bool) addr fs msg,
+  exists b0 b1,
+    calls types_program (S d) (if owned then "Remote::new" else "Remote::borrowed") [VStr addr] (CVal (remote_val owned addr)) /\
+    calls types_program (S (S d)) "Remote::executor" [remote_val owned addr] (CVal b0) /\
+    funds_chain d b0 fs b1 /\
+    calls types_program (S d) "ExecutorBuilder::contract" [b1] (CVal (VStr addr)) /\
+    calls types_program (S d) "ExecutorBuilder::funds" [b1] (CVal (last fs (VArr []))) /\
+    calls types_program (S d) "ExecutorBuilder[Ready]::new" [VStr addr; last fs (VArr []); msg] (CVal (eb_val addr (last fs (VArr [])) msg)) /\
+    calls types_program (S d) "ExecutorBuilder[Ready]::build" [eb_val addr (last fs (VArr [])) msg]
+      (CVal (VRec "WasmMsg::Execute" [("contract_addr", VStr addr); ("msg", msg); ("funds", last fs (VArr []))])).
+Proof. exact translated_executor_path. Qed.
+
+(* the admin helpers address the handle's contract *)
+Theorem c10_translated_admin_helpers : forall d (owned : bool) addr adm,
+  calls types_program (S d) "Remote::update_admin" [remote_val owned addr; VStr adm]
+    (CVal (VRec "WasmMsg::UpdateAdmin" [("contract_addr", VStr addr); ("admin", VStr adm)])) /\
+  calls types_program (S d) "Remote::clear_admin" [remote_val owned addr]
+    (CVal (VRec "WasmMsg::ClearAdmin" [("contract_addr", VStr addr)])).
+Proof. intros. split; [apply calls_update_admin|apply calls_clear_admin]. Qed.
+
 Example c10_translated_example :
   call builder_program 2 40 "InstantiateBuilder::new" [VStr "e30="; VNat 5] = Some (CVal (rep (b_new (VStr "e30=") (VNat 5)))) /\
   call builder_program 2 40 "InstantiateBuilder::build" [rep (b_apply (b_apply (b_new (VStr "e30=") (VNat 5)) (BLabel "a")) (BLabel "b"))] =
@@ -39,3 +62,5 @@ Proof. vm_compute. split; reflexivity. Qed.
 
 Print Assumptions c10_translated_instantiate_builder.
 Print Assumptions c10_translated_builder_setters.
+Print Assumptions c10_translated_executor_path.
+Print Assumptions c10_translated_admin_helpers.
